@@ -228,6 +228,10 @@ func c14replies() []c14reply {
 		{"failure", s("<failure xmlns='NS'><not-authorized/></failure>")},
 		{"failure", s("<failure xmlns='NS'><temporary-auth-failure/><text xml:lang='en'>later</text></failure>")},
 		{"failure", s("<failure xmlns='NS'/>")},
+		{"failure", s("<failure xmlns='NS'><temporary-auth-failure/></failure>")},
+		{"failure", s("<failure xmlns='NS'><text xml:lang='en'>try later</text><temporary-auth-failure/></failure>")},
+		{"failure", s("<failure xmlns='NS'><credentials-expired/></failure>")},
+		{"failure", s("<failure xmlns='NS'><account-disabled/><text>x</text></failure>")},
 		{"failure", s("<failure xmlns='NS'><aborted/></failure><success xmlns='NS'/>")},
 		{"other", "<stream:features><bind xmlns='urn:ietf:params:xml:ns:xmpp-bind'/></stream:features>"},
 		{"other", "<stream:error><not-authorized xmlns='urn:ietf:params:xml:ns:xmpp-streams'/></stream:error>"},
